@@ -177,3 +177,15 @@ Proof.
   split; [exact sx1_wf|]. split; [reflexivity|]. split; [reflexivity|]. split; [exact sx1_rows|].
   split; [exact ex_m_small|]. split; [lra|]. apply sx1_norm. apply sx1_entry.
 Qed.
+
+(* the drift is real: at binary64 the model's CG on [[2,1],[1,2]] x = (3,3) from x0 = (1e10, 7e9) with tol = 1e-12 answers
+   Ok(4) with a first residual component of 1.9e-6 (relative residual 4.5e-7): the recurrence residual passed the test,
+   the true residual is five orders of magnitude above tol -- 0.12 units of k u (||A|| X + ||b||)/||b||', inside the bound *)
+From Coq Require Import Floats.
+From OV Require Import Inst.FloatInst Proofs.ComplexRound Proofs.Round2X1.
+Example residual_drift_is_real : exists g,
+  run_trip (A := SAF) CG 2 2 drift_ts [3%float; 3%float] [10000000000%float; 7000000000%float] 50 drift_tol
+    = Ok (IOk 4, drift_x, g) /\
+  (FR drift_tol <= 1 / 1000000000000 + 1 / 10000000000000000000000000000)%R /\
+  (2 * FR (nth 0 drift_x 0%float) + FR (nth 1 drift_x 0%float) - 3 >= 1 / 1000000)%R.
+Proof. exact drift_is_real. Qed.
